@@ -10,6 +10,7 @@ import (
 	"flag"
 	"fmt"
 	"os"
+	"runtime/debug"
 	"runtime/pprof"
 	"sort"
 	"strings"
@@ -120,6 +121,9 @@ func guard(f func()) (msg string) {
 			if msg == "" {
 				msg = "panic"
 			}
+			if os.Getenv("VERIF_STACK") != "" {
+				msg += " @ " + panicSite()
+			}
 		}
 	}()
 	f()
@@ -127,3 +131,21 @@ func guard(f func()) (msg string) {
 }
 
 func bytesReader(s string) *strings.Reader { return strings.NewReader(s) }
+
+// panicSite: first frames of the panicking goroutine inside the repository (debug aid, VERIF_STACK=1)
+func panicSite() string {
+	st := string(debug.Stack())
+	out := ""
+	n := 0
+	for _, line := range strings.Split(st, "\n") {
+		if strings.Contains(line, "/repo/") && n < 3 {
+			f := strings.TrimSpace(line)
+			if i := strings.Index(f, " +0x"); i > 0 {
+				f = f[:i]
+			}
+			out += strings.TrimPrefix(f, "/repo/") + " < "
+			n++
+		}
+	}
+	return out
+}
